@@ -569,6 +569,13 @@ def _plumbing():
         out.append(("plumb:rest:%d" % k, ["it begin", "it string %s null" % H(t), "it rest", "it advance", "it rest", "it reset", "it value",
                                           "it rest", "it advance", "it rest", "it advance", "it rest"]))
     out.append(("plumb:elems", ["it begin"] + ["it elems %d %d" % (z, c) for z in (2, 3, 4, 5, 8, 12, 16, 24, 7) for c in (1, 2, 3, 4, 9)]))
+    # clones of sources whose parameters do not round-trip in floating point replay the identical values (bit by bit)
+    for k, d in enumerate(["lin(3 : 0.1 0.3)", "lin(5 : 0.4 1.3)", "range(0 0.3 : 0.1)", "range(0 0.6 : 0.2)", "lin(7 : 0.1 0.7)", "range(0.1 1.2 : 0.1)",
+                           "fac(5:0.1:0.3:0.7)", "0.1 0.2 0.3", "lin(4 : 0 1)", "range(0 1 : 0.3)", "lin(10 : -0.7 0.9)"]):
+        for pre in ([], ["it advance"], ["it advance", "it advance"], ["it walk 2", "it reset"]):
+            out.append(("plumb:clone:%d:%d" % (k, len(pre)), ["it begin", "it create " + H(d)] + pre + ["it cmpclone 40", "it reset", "it cmpclone 3", "it cmpclone 40"]))
+    for k, (n, d) in enumerate([(4, "lin 0.1 0.7"), (5, "bound 0.1 0.2 0.3"), (3, "lin 0.4 1.3")]):
+        out.append(("plumb:pclone:%d" % k, ["it begin", "it profile %d %s" % (n, H(d)), "it advance", "it cmpclone 40", "it reset", "it cmpclone 40"]))
     out.append(("plumb:val", ["it begin", "it fromval lin", "it fromval range", "it fromval fac", "it rangeset vec2", "it rangeset vec3",
                               "it rangeset vecnull", "it rangeset type", "it rangeset itnull"]))
     return out
@@ -578,6 +585,44 @@ def scripts(tier, seed, scale=1):
     top = 3 if tier == "quick" else 4
     return (_exhaustive(top) + _strings(top) + _buffers(top) + _fromiter(top) + _polydirect(top) + _extreme() + _words(top) + _keys() + _history() + _consume() + _boundary() + _plumbing() + _narrow() + _messages(top)
             + _random(tier, seed, scale))
+
+
+class _XS:
+    """second driver part: the C++ value source template mpt::source<T> of mptcore/types.h (positive and negative steps)"""
+    id = "C19"
+    area = "iter"
+    driver = "drvxx_iter"
+    cxx = True
+    fixed_lines = 1
+    link_extra = []
+
+    @staticmethod
+    def corpus(chk):
+        return []
+
+    @staticmethod
+    def scripts(tier, seed, scale=1):
+        out = []
+        top = 5 if tier == "quick" else 6
+        for di, data in enumerate(["1,2,3,4,5", "7", "1,2", "3,1,4,1,5,9"]):
+            for step in (1, -1, 2, -2, 3, -3):
+                create = "xs new %d %s" % (step, data)
+                # every sequence of value / advance / reset; then a long tail of advances past the end
+                seqs = [s for n in range(0, 4) for s in itertools.product("raz", repeat=n)]
+                lines = []
+                for seq in seqs:
+                    lines.append(create)
+                    lines += [{"r": "xs value", "a": "xs advance", "z": "xs reset"}[o] for o in seq]
+                    lines += ["xs value"] + ["xs advance", "xs value"] * (top + 4)
+                out.append(("xs:%d:%d" % (di, step), lines))
+        return out
+
+    nontrivial = staticmethod(lambda script, c_lines: any(ln.startswith("R more") for ln in c_lines))
+    tally = staticmethod(lambda chk, script, c_lines: None)
+    finding_key = staticmethod(lambda script, res: finding_key(script, res))
+
+
+extra_parts = [_XS]
 
 
 def nontrivial(script, c_lines):
